@@ -39,6 +39,7 @@ type FailRec struct {
 type Result struct {
 	Name           string         `json:"name"`
 	Executions     int64          `json:"executions"`
+	NovelExecs     int64          `json:"novel_executions"` // executions that reached at least one state not seen before
 	States         int64          `json:"states"`
 	Transitions    int64          `json:"transitions"`
 	BoundCompleted string         `json:"bound_completed"` // "none", "0", "1", …, "unbounded"
@@ -174,6 +175,9 @@ func (x *Explorer) Explore() *Result {
 			br.Executions++
 			res.Executions++
 			br.States += s.newKeys
+			if s.newKeys > 0 {
+				res.NovelExecs++
+			}
 			x.transitions += s.trans
 			if len(s.trace) > res.MaxDepth {
 				res.MaxDepth = len(s.trace)
